@@ -58,7 +58,15 @@ func (d *dialer) Dial() error {
 		return nil
 	}
 	d.Unlock()
-	return d.dial(false)
+	if err := d.dial(false); err != nil {
+		// The synchronous attempt failed and nothing will redial:
+		// the dialer is idle again, so that Dial can be retried.
+		d.Lock()
+		d.active = false
+		d.Unlock()
+		return err
+	}
+	return nil
 }
 
 func (d *dialer) Close() error {
